@@ -232,11 +232,13 @@ func VerifC11_ConflictSequence() {
 	w.Srv.FaultPlan = plan
 	w.Srv.FaultOnlyResource = "things"
 	edits := 0
+	replacedDone := false // (with more conflicts than the retry budget the last one is never reached)
 	w.Srv.OnFault = func(n int) {
 		if n >= k {
 			return
 		}
 		if replaced && n == k-1 {
+			replacedDone = true
 			repl := env.Thing("ns", "p", "puid-recreated")
 			repl.Object["spec"].(map[string]interface{})["x"] = "of-the-new-parent"
 			w.Srv.Put("things", repl)
@@ -251,8 +253,15 @@ func VerifC11_ConflictSequence() {
 		w.Srv.Put("things", cur)
 	}
 	phase := rt.String("phase")
-	pc := verifNewPC(w, verifPCConfig{ParentRes: env.ThingRes})
-	_, err := pc.updateParentStatus(cached, map[string]interface{}{"phase": phase})
+	// (through a WHOLE real sync - a hook that returns the status, no child
+	// resources - not through an internal function whose contract a refactoring
+	// may move; the sync takes a conflict it finally loses as "reconcile again",
+	// so success is read off the stored object, not off the returned error)
+	hook := &verifHook{enabled: true, fn: func(req *v1.CompositeHookRequest) (*v1.CompositeHookResponse, error) {
+		return &v1.CompositeHookResponse{Status: map[string]interface{}{"phase": phase}}, nil
+	}}
+	pc := verifNewPC(w, verifPCConfig{ParentRes: env.ThingRes, GenerateSelector: true, Sync: hook})
+	err := pc.syncParentObject(cached)
 	rt.Observe("err", err != nil)
 
 	// every write attempt is preceded by its own read and carries what was read
@@ -287,7 +296,7 @@ func VerifC11_ConflictSequence() {
 	rt.Assert(gets >= attempts, "conflicts/fewer-reads-than-write-attempts")
 	cur := w.Srv.Peek("things", "ns", "p")
 	cst, _ := cur.Object["status"].(map[string]interface{})
-	if replaced {
+	if replacedDone {
 		rt.Cover("conflicts/parent-replaced-meanwhile")
 		for i := range w.Srv.Log {
 			r := &w.Srv.Log[i]
@@ -301,7 +310,9 @@ func VerifC11_ConflictSequence() {
 		rt.Assert(sp["x"] == "of-the-new-parent", "conflicts/replacement-modified")
 		return
 	}
-	if err == nil {
+	stored := cst != nil && cst["phase"] == phase
+	if stored {
+		rt.Assert(err == nil, "conflicts/error-although-the-status-was-stored")
 		rt.Cover("conflicts/succeeded")
 		// (whether an error other than a conflict ends the retries or is retried
 		// too is C12's business, not C11's: if the call reports success, it went
@@ -324,6 +335,5 @@ func VerifC11_ConflictSequence() {
 			rt.Cover("conflicts/non-conflict-error-ends-the-retries")
 		}
 		rt.Assert(attempts <= k+1, "conflicts/retried-after-a-non-conflict-error-or-beyond-the-plan")
-		rt.Assert(cst == nil || cst["phase"] != phase || phase == "", "conflicts/status-stored-although-error-reported")
 	}
 }
